@@ -82,10 +82,19 @@ def check_auto(ctx):
     fi = au.methods['__get__']
     inst = [a.arg for a in fi.node.args.args][1]
     flag_read = 'getattr(%s, %s, True)' % (inst, FLAG)
+    flag_read2 = 'getattr(%s, %s)' % (inst, FLAG)          # inside try / except AttributeError: enabled
     seen = set()
     for p in w.paths(fi.node, cls=au):
         gt = gtexts(p)
         r = p.ret()
+        # "a flag that was never written counts as enabled" spelled with an exception handler
+        unset = any(g.startswith("caught('AttributeError'") or g.startswith("caught('(AttributeError") for g in gt) and not any(FLAG in g for g in gt) \
+            and any(e.kind == 'try_partial' and len(e.sub['stmts']) == 1 and
+                    any(canon(v) == flag_read2 for bp in e.sub['body'] for v in list(bp.env.values()) + ([bp.end[1]] if bp.end and bp.end[1] is not None else []))
+                    for e in p.effects)
+        if unset:
+            gt = gt | {flag_read}
+        gt = {g.replace(flag_read2, flag_read) if not any(x.startswith("caught(") for x in gt) or True else g for g in gt}
         if ('(%s is None)' % inst) in gt:
             seen.add('class')
             if r is not None and canon(r) == 'self':
@@ -157,7 +166,8 @@ def check_slots(ctx):
     flag_assign = [n for n in ast.walk(comp.node) if isinstance(n, ast.Assign) and canon(n.targets[0]) == FLAG]
     if len(rets) == 1 and rets[0].value is not None and canon(rets[0].value) == '[%s]' % FLAG and flag_assign:
         v = flag_assign[0].value
-        per_name = isinstance(v, ast.BinOp) and isinstance(v.op, ast.Mod) and 'descriptor_name' in canon(v.right)
+        # any string built from the descriptor name (% formatting, format(), f-string, +)
+        per_name = not isinstance(v, ast.Constant) and any(isinstance(x, ast.Name) and x.id == 'descriptor_name' for x in ast.walk(v))
         if per_name:
             ctx.holds(rule, comp, 'Auto._compile: flag = "..%s.." % descriptor_name; return [flag]', 'one flag slot per described attribute', comp.node.lineno, clause='b')
         else:
@@ -261,7 +271,7 @@ def check_generated_sync(ctx):
     if fi is None:
         raise Undecided('anchor generate_unrolled_code_for_descriptor_sync not found')
     ctx.unit('functions')
-    w = repo.walker()
+    w = repo.walker(split_ifexp=True)
     flag = fi.node.args.args[1].arg
     seen = set()
     for p in w.paths(fi.node, cls=cg):
@@ -282,6 +292,18 @@ def check_generated_sync(ctx):
                 ctx.violation('R13-hooks', fi, '%s: returns "" under [%s]' % (side, '; '.join(sorted(gt))), 'the sync code is dropped although hooks exist', fi.node.lineno, clause='c')
             continue
         seen.add(side)
+        # the text may be assembled in a list: add what the list starts with and what the loop
+        # over the hooks appends to it
+        for e in p.effects:
+            if e.kind == 'loop':
+                txt += ' ' + canon(e.sub['iter']) if e.sub['iter'] is not None else ''
+                for v_ in e.sub['entry'].values():
+                    if v_ is not None:
+                        txt += ' ' + canon(v_)
+                for bp in e.sub['body']:
+                    for x in bp.effects:
+                        if x.kind == 'call' and isinstance(x.call.func, ast.Attribute) and x.call.func.attr == 'append':
+                            txt += ' ' + ' '.join(canon(a) for a in x.call.args)
         ok = ('pkt.%s()' % want_getter) in txt and other not in txt and "sync_methods[%i](pkt)" in txt and ('range(len(self.pkt_class.%s()))' % want_getter) in txt
         if ok:
             ctx.holds('R13-hooks', fi, '%s: sync_methods = pkt.%s(); sync_methods[i](pkt) for every i' % (side, want_getter), 'every hook of the phase is called with the packet', fi.node.lineno, clause='c')
@@ -335,8 +357,17 @@ def check_constructor(ctx):
     else:
         ctx.violation(rule, fi, 'Packet.__init__', 'the keyword for a described field is not routed through the descriptor', fi.node.lineno, clause='d')
     # tolerate fields without descriptor: except AttributeError / KeyError
-    hs = [unparse(h.type) for t in ast.walk(fi.node) if isinstance(t, ast.Try) for h in t.handlers if h.type is not None]
-    if 'KeyError' in hs and 'AttributeError' in hs:
+    hs = []
+    for t in ast.walk(fi.node):
+        if isinstance(t, ast.Try):
+            for h in t.handlers:
+                if h.type is None:
+                    hs.append('<all>')
+                elif isinstance(h.type, ast.Tuple):
+                    hs.extend(unparse(x) for x in h.type.elts)
+                else:
+                    hs.append(unparse(h.type))
+    if ('KeyError' in hs or 'LookupError' in hs) and 'AttributeError' in hs or 'Exception' in hs or '<all>' in hs:
         ctx.holds(rule, fi, 'except AttributeError / KeyError: pass', 'fields without descriptor or keyword are skipped', fi.node.lineno, clause='d')
     else:
         ctx.violation(rule, fi, 'handlers %s' % hs, 'a missing keyword / descriptor must be tolerated', fi.node.lineno, clause='d')
@@ -368,6 +399,8 @@ def check_constructor(ctx):
                     ctx.violation('R13-flag-writers', fi2, st, 'the nested packet is parsed into a pre-populated object (prototype / selector result): an explicitly assigned descriptor of the prototype stays disabled in every parsed packet', e.lineno, clause='e')
     writers = []
     for f in repo.functions.values():
+        if f.node.name in repo.absorbed:
+            continue            # its statements live in (and are attributed to) its callers
         for n in ast.walk(f.node):
             if isinstance(n, ast.Call) and isinstance(n.func, ast.Name) and n.func.id == 'setattr' and len(n.args) == 3 and 'iam_enabled_attr_name' in canon(n.args[1]):
                 writers.append(f.qual)
